@@ -65,7 +65,7 @@ RPow(a, k) == IF k = 0 THEN ROne ELSE RMul(a, RPow(a, k - 1))        \* k >= 0
 (* sum of f[i] over i \in lo..hi  (f a function or sequence of rationals) *)
 RECURSIVE RSumRange(_, _, _)
 RSumRange(f, lo, hi) == IF lo > hi THEN RZero ELSE RAdd(f[lo], RSumRange(f, lo + 1, hi))
-RSumSeq(s) == RSumRange(s, 1, Len(s))
+RSumSeq(s) == LET t == Eager(s) IN RSumRange(t, 1, Len(t))
 
 (* dot product of two sequences of rationals of equal length *)
 RDot(u, v) == RSumSeq([i \in 1..Len(u) |-> RMul(u[i], v[i])])
@@ -73,5 +73,5 @@ RDot(u, v) == RSumSeq([i \in 1..Len(u) |-> RMul(u[i], v[i])])
 (* integer vectors / small integer tensors: plain sums *)
 RECURSIVE ISumRange(_, _, _)
 ISumRange(f, lo, hi) == IF lo > hi THEN 0 ELSE f[lo] + ISumRange(f, lo + 1, hi)
-ISumSeq(s) == ISumRange(s, 1, Len(s))
+ISumSeq(s) == LET t == Eager(s) IN ISumRange(t, 1, Len(t))
 =============================================================================
